@@ -141,6 +141,9 @@ UNITS = [
     Unit("C14", "jsonargparse._typehints:subclass_spec_as_namespace", ssn_setup, ssn_post, no_exc,
          trusted=["Namespace(mapping) copies the mapping; Namespace(**kw) holds exactly kw", "NestedArg (dotted sub-option) inputs are outside this unit's scenarios"]),
 ]
+from contracts.core_units import instantiate_unit  # noqa: E402
+UNITS.append(instantiate_unit("C14"))
+
 VERIFIED_CALLEES = ("is_subclass_spec",)
 LEVEL = "other"
 TECHNIQUE = "contract-based deductive verification of the spec-normalisation helpers (VCs from the real AST, complete case analysis of spec shapes) + bounded run-time contract checking on generated class families with a constructor log"
